@@ -759,6 +759,11 @@ class YAMLPath:
 
             elif char == "]":
                 # Track bracket de-nesting
+                if demarc_count < 1:
+                    raise YAMLPathException((
+                        "YAML Path contains an unmatched ] demarcation mark"
+                        " at character index {} in")
+                        .format(char_idx), yaml_path)
                 demarc_stack.pop()
                 demarc_count -= 1
 
